@@ -317,7 +317,7 @@ def set_case(rng, tier, cls):
       t = dict(rng.choice(mfs))
       if cls == 'TwoRatioMFDeviceSet':
         t['flows'] = ['e', 'h']; t['_tworatio'] = True
-        t['ratios'] = [C.fs(C.dy(rng, 1, 3)), C.fs(C.dy(rng, 1, 3))] if rng.random() < 0.93 else None
+        t['ratios'] = [C.fs(C.dy(rng, 1, 3)), C.fs(C.dy(rng, 1, 3))]   # ratios=None is rejected since daf94a5
         t['ctype'] = rng.choice(['eq', 'ineq', 'ineq'])
       else:
         t['ratios'] = None
